@@ -97,6 +97,8 @@ def scenarios(tier):
         sc.append(("fresh_residue_" + kind, c, SETUP_FRESH,
                    [[AT(8, 8), FILL(T0), VER(T0), AA(4, 4, 3), FILL(T0 + 1)], [AB(12), FILL(T1), DROP(T1), AB(5), FILL(T1 + 1), VER(T1 + 1)]],
                    {"live": True, "expect_live": True}))
+        sc.append(("fresh_last_bytes_" + kind, c, [AB(127), FILL(1)],
+                   [[AB(64), FILL(T0), VER(T0)], [AB(64), FILL(T1), VER(T1)]], {"live": True, "expect_live": True}))
     if tier == "thorough":
         for kind in kinds:
             c = es.conc_cfg(cap=200, kind=kind, minseg=8, retries=2)
